@@ -127,7 +127,14 @@ type c25Endpoint struct {
 	dropGroups  [][]c25Group
 	inflight atomic.Int64
 	tenure   func(node int) int
+	// what the endpoint answers while it is down: an HTTP status, 0 = drop the connection
+	// without answering. Set per outage ("endpoint 0 <status>").
+	failStatus int
+	failKinds  map[int]int
 }
+
+// statuses of every class a failing endpoint may answer with; 0 = no answer at all
+var c25FailStatuses = []int{503, 500, 502, 400, 401, 403, 404, 408, 413, 422, 429, 204, 301, 0}
 
 func c25RowID(k uint64, j, i int) int64 { return int64(k)*1000000 + int64(j)*1000 + int64(i) }
 
@@ -200,7 +207,21 @@ func c25NewEndpoint() *c25Endpoint {
 					e.dropGroups = append(e.dropGroups, p.groups)
 				}
 			}
-			w.WriteHeader(http.StatusServiceUnavailable)
+			st := e.failStatus
+			if e.failKinds == nil {
+				e.failKinds = map[int]int{}
+			}
+			e.failKinds[st]++
+			if st == 0 {
+				if hj, ok := w.(http.Hijacker); ok {
+					if c, _, err := hj.Hijack(); err == nil {
+						c.Close()
+						return
+					}
+				}
+				st = http.StatusServiceUnavailable
+			}
+			w.WriteHeader(st)
 			return
 		}
 		p.ok = true
@@ -305,7 +326,7 @@ func (n *c25Node) start(t *testing.T) {
 	cfg.MaxBatchSz = n.batchSz
 	cfg.MaxBatchDelay = time.Hour // the delay timer never fires by itself: the `timer` op flushes
 	cfg.HighWatermarkInterval = n.tick
-	cfg.TransmitTimeout = 5 * time.Second
+	cfg.TransmitTimeout = 60 * time.Second
 	cfg.TransmitMinBackoff = time.Millisecond
 	cfg.TransmitMaxBackoff = 2 * time.Millisecond
 	if n.maxRetries > 0 {
@@ -369,10 +390,7 @@ func (n *c25Node) feed(e c25Entry) {
 
 func (n *c25Node) barrier() bool {
 	// a no-op leadership message: once it has been taken, mainLoop has finished whatever it was doing
-	deadline := time.Now().Add(5 * time.Second)
-	if c25Pad > 0 {
-		deadline = time.Now().Add(15 * time.Second) // mainLoop may be compressing tens of MiB
-	}
+	deadline := time.Now().Add(30 * time.Second) // generous: only a service that is stuck runs into it
 	n.svc.leaderObCh <- n.leader
 	for len(n.svc.leaderObCh) > 0 {
 		if time.Now().After(deadline) {
@@ -404,10 +422,7 @@ func (n *c25Node) vec() c25Vec {
 
 // settle waits for the quiescent point the model describes. ok=false: it never came.
 func (n *c25Node) settle() bool {
-	deadline := time.Now().Add(10 * time.Second)
-	if c25Pad > 0 {
-		deadline = time.Now().Add(20 * time.Second)
-	}
+	deadline := time.Now().Add(30 * time.Second)
 	win := time.Duration(n.settleMs) * time.Millisecond
 	if n.maxRetries > 0 && win < 15*time.Millisecond {
 		win = 15 * time.Millisecond // several retry intervals: the leader gives up on event after event
@@ -511,7 +526,7 @@ func (n *c25Node) flushBatcher(sync bool) bool {
 		ch <- resp
 		select {
 		case <-resp:
-		case <-time.After(5 * time.Second):
+		case <-time.After(30 * time.Second):
 			return false
 		}
 		// the marker is a queued object: one request is emitted (by size or by the Flush).
@@ -568,7 +583,7 @@ func (n *c25Node) setLeader(b bool) bool {
 		n.tenure++
 	}
 	n.svc.leaderObCh <- b
-	deadline := time.Now().Add(5 * time.Second)
+	deadline := time.Now().Add(30 * time.Second)
 	for n.svc.IsLeader() != b || len(n.svc.leaderObCh) > 0 {
 		if time.Now().After(deadline) {
 			return false
@@ -654,6 +669,10 @@ func (n *c25Node) applyOnly(t *testing.T, op string) bool {
 		n.ep.mu.Lock()
 		n.ep.up.Store(f[1] == "1")
 		n.ep.attempts = 0
+		n.ep.failStatus = http.StatusServiceUnavailable
+		if len(f) > 2 {
+			n.ep.failStatus, _ = strconv.Atoi(f[2])
+		}
 		n.ep.mu.Unlock()
 	case "hwm":
 		v, _ := strconv.ParseUint(f[1], 10, 64)
@@ -667,7 +686,7 @@ func (n *c25Node) applyOnly(t *testing.T, op string) bool {
 			}
 			h := n.svc.HighWatermark()
 			from := n.cl.nBroadcasts()
-			deadline := time.Now().Add(5 * time.Second)
+			deadline := time.Now().Add(30 * time.Second)
 			for n.cl.broadcastsOfSince(h, from) < 2 {
 				if time.Now().After(deadline) {
 					return false
@@ -757,7 +776,9 @@ func (g *c25Gen) op() string {
 			if g.up {
 				return "endpoint 1"
 			}
-			return "endpoint 0"
+			// the outage answers with a status of any class (the model's outage has no kind:
+			// the third token is stripped from the line the model sees)
+			return fmt.Sprintf("endpoint 0 %d", c25FailStatuses[g.r.Intn(len(c25FailStatuses))])
 		case c < 90:
 			// a truthful broadcast from another node: it never exceeds what exists
 			if g.next == 0 {
@@ -791,6 +812,8 @@ type c25Hist struct {
 	posts    []c25Post
 	ok       bool
 	stepDown bool // a leader-off happened while an event was being retried
+	failStatuses []string
+	failKinds    map[int]int // failed attempts seen by the endpoint, by status answered
 }
 
 func c25RunHistory(t *testing.T, root string, hid int, batchSz int, tick time.Duration, ops []string, settleMs int, maxRetries int) *c25Hist {
@@ -822,7 +845,14 @@ func c25RunHistory(t *testing.T, root string, hid int, batchSz int, tick time.Du
 				h.maxHwmIn = v
 			}
 		}
-		line := real
+		if f := strings.Fields(real); len(f) == 3 && f[0] == "endpoint" {
+			h.failStatuses = append(h.failStatuses, f[2])
+		}
+		modelOp := real
+		if f := strings.Fields(real); len(f) == 3 && f[0] == "endpoint" {
+			modelOp = f[0] + " " + f[1]
+		}
+		line := modelOp
 		var o string
 		if strings.HasPrefix(real, "qentry ") {
 			n.applyOnly(t, real)
@@ -841,7 +871,7 @@ func c25RunHistory(t *testing.T, root string, hid int, batchSz int, tick time.Du
 			// the real ticker fires by itself all the time, also while the op is being
 			// processed: the model applies the op and then a tick, and only the state
 			// after both is compared (pruning commutes with everything the op does)
-			line = "T " + real
+			line = "T " + modelOp
 			o, ok = n.apply(t, "tick")
 		}
 		h.ops = append(h.ops, line)
@@ -857,6 +887,7 @@ func c25RunHistory(t *testing.T, root string, hid int, batchSz int, tick time.Du
 	h.postsAt = append([]int(nil), n.cl.postsAt...)
 	n.cl.mu.Unlock()
 	ep.mu.Lock()
+	h.failKinds = ep.failKinds
 	h.posts = append([]c25Post(nil), ep.posts...)
 	for _, gs := range ep.dropGroups {
 		for _, g := range gs {
@@ -1081,10 +1112,16 @@ func TestVerifC25(t *testing.T) {
 		// forced schedule: a snapshot is requested while the groups of the last entries are still
 		// in the hand-off channel; then the node restarts (nothing above the snapshot to replay)
 		{64, append(append([]string{}, c25QEntries(5, 60)...), "qsync", "restart", "leader 1", "timer"), false},
+		// transient outages that answer 4xx: a route being redeployed (404), expired credentials
+		// (401), a proxy limit (413), a bad-request answer from a gateway (400)
+		{1, []string{"leader 1", "endpoint 0 404", "entry 5 0 1", "entry 6 0 1", "endpoint 1", "entry 7 0 1", "timer"}, false},
+		{2, []string{"leader 1", "entry 5 0 1", "endpoint 0 401", "entry 6 0 1", "entry 7 1 2,1", "endpoint 1", "endpoint 0 413", "entry 8 0 1", "timer", "endpoint 0 400", "endpoint 1", "timer"}, false},
+		{1, []string{"endpoint 0 0", "leader 1", "entry 5 0 1", "endpoint 0 429", "entry 6 0 1", "endpoint 0 301", "endpoint 1", "timer"}, false},
 		// leader loses leadership while retrying
 		{1, []string{"leader 1", "endpoint 0", "entry 5 0 1", "entry 6 0 1", "leader 0", "endpoint 1", "leader 1", "timer"}, false},
 	}
 	hists := vfScale(60, 1500)
+	verySlow, abandonedTries := 0, 0
 	tStart := time.Now()
 	budget := time.Duration(vfScale(120, 1200)) * time.Second // time-box: the machine may be shared
 	for i := 0; i < len(directed)+hists; i++ {
@@ -1129,6 +1166,7 @@ func TestVerifC25(t *testing.T) {
 		}
 		h := c25RunHistory(t, root, i, b, tick, ops, 2, mr)
 		if !h.ok {
+			abandonedTries++
 			// one more try with a much longer stability window before calling it a harness problem
 			h = c25RunHistory(t, root, i, b, tick, ops, 40, mr)
 			if !h.ok {
@@ -1142,6 +1180,15 @@ func TestVerifC25(t *testing.T) {
 			if h2.ok {
 				h = h2
 				rep.Count("histories-rerun-with-long-settle-window")
+			}
+			// still different: once more with a window far beyond any scheduling delay of a busy
+			// machine, so that a difference that remains is not one of wall-clock speed
+			if mo, err := vfModel("cdcpipe", h.ops); err == nil && vfFirstDiff(h.out, mo) >= 0 && verySlow < 6 {
+				verySlow++
+				if h3 := c25RunHistory(t, root, i, b, tick, ops, 400, mr); h3.ok {
+					h = h3
+					rep.Count("histories-rerun-with-very-long-settle-window")
+				}
 			}
 		}
 		lost, mis := c25Judge(rep, h, "")
@@ -1178,6 +1225,12 @@ func TestVerifC25(t *testing.T) {
 		rep.CountN("snapshots", nSync)
 		rep.CountN("hwm-broadcasts-in", nHwm)
 		rep.CountN("posts", len(h.posts))
+		for st, nn := range h.failKinds {
+			rep.CountN(fmt.Sprintf("failed-attempts-answered-%d", st), nn)
+		}
+		for _, st := range h.failStatuses {
+			rep.Count("outages-answering-" + st)
+		}
 		rep.CountN("changes-lost", lost)
 		rep.CountN("changes-mislabelled", mis)
 		rep.Count(fmt.Sprintf("batch-size=%d", b))
@@ -1196,6 +1249,8 @@ func TestVerifC25(t *testing.T) {
 			rep.Sample(map[string]interface{}{"ops": vfTrunc(h.ops), "impl": vfTrunc(h.out)})
 		}
 	}
+	rep.CountN("histories-first-try-without-quiescent-point", abandonedTries)
+
 	// ---- large items ------------------------------------------------------------------------
 	// (a) flate round trip, the law the model assumes of the FIFO's stored form: for inputs of
 	// 9-16 MiB (and small ones) Decompress(Compress(x)) = x.
